@@ -317,6 +317,9 @@ func Main(su Suite, replayPath string) int {
 		_ = os.WriteFile(os.Getenv("VERIF_WORKER_OUT"), b, 0o644)
 		if os.Getenv("VERIF_STATS") != "" {
 			fmt.Fprintf(os.Stderr, "phases: run=%v teardown=%v hooks=%v\n", vsched.StatRun, vsched.StatTear, vsched.StatHooks)
+			var ms runtime.MemStats
+			runtime.ReadMemStats(&ms)
+			fmt.Fprintf(os.Stderr, "mem: heapAlloc=%dMB heapSys=%dMB sys=%dMB goroutines=%d\n", ms.HeapAlloc>>20, ms.HeapSys>>20, ms.Sys>>20, runtime.NumGoroutine())
 		}
 		return 0
 	}
